@@ -7,6 +7,7 @@ package digraph6 // import "gonum.org/v1/gonum/graph/encoding/digraph6"
 
 import (
 	"fmt"
+	"math"
 	"math/big"
 	"strings"
 
@@ -99,19 +100,22 @@ func bit6(b int64) byte {
 // IsValid returns whether the graph is a valid digraph6 encoding. An invalid Graph
 // behaves as the null graph.
 func IsValid(g Graph) bool {
-	n := int(numberOf(g))
-	if n < 0 {
+	n := numberOf(g)
+	if n < 0 || math.MaxInt32 < n {
+		// No string can hold the adjacency bits of a graph
+		// of order greater than MaxInt32, and for such orders
+		// n*n may not be representable.
 		return false
 	}
 	size := (n*n + 5) / 6 // ceil(n^2 / 6)
 	g = g[1:]
 	switch {
 	case g[0] != 126:
-		return len(g[1:]) == size
+		return int64(len(g[1:])) == size
 	case g[1] != 126:
-		return len(g[4:]) == size
+		return int64(len(g[4:])) == size
 	default:
-		return len(g[8:]) == size
+		return int64(len(g[8:])) == size
 	}
 }
 
